@@ -26,6 +26,7 @@ type GenCfg struct {
 	Sub        bool // create the nested directory d0/sub
 	Symlinks   bool // create symlinks ld0 -> d0, lf -> d0/<name>
 	MaxAdds    int
+	PMacro     int // percent of operations replaced by a multi-step lifecycle macro on a watched file (re-point, alias swap, ...)
 	PRemoveNow int // percent of plugged bursts that contain a Remove of a watched dir followed by ops under fresh names
 	Others     int // up to this many other Watchers with random activity (C14)
 	PAbsorb    int // percent of segments run as absorb segments (needs a buffered channel)
@@ -312,6 +313,8 @@ func (g *Gen) Case() *Case {
 				}
 			}
 			g.sync()
+		case g.pct("macro", g.cfg.PMacro):
+			g.macro()
 		default:
 			g.fsStep()
 			g.sync()
@@ -344,6 +347,94 @@ func (g *Gen) otherStep() {
 	default:
 		g.steps = append(g.steps, Step{K: KXClose, N: i})
 	}
+}
+
+// macro emits one of the multi-step situations the lifecycle properties
+// quantify over, built directly instead of waiting for chance to assemble it:
+// a listed file path comes to name a new inode while the old inode is kept
+// alive (hard link / open descriptor), comes to name a file that is already
+// watched under another name, is renamed away and back, is overwritten by a
+// rename, ... followed by a re-Add and further activity.
+func (g *Gen) macro() {
+	t := g.t
+	files := g.fs.existing(func(p string, k byte) bool { return k == 'f' && strings.Count(p, "/") == 1 })
+	if len(files) == 0 {
+		g.fsStep()
+		g.sync()
+		return
+	}
+	f := g.pick("macro-file", files)
+	g.fresh++
+	keep := P("u/keep-" + string(rune('a'+g.fresh%26)) + string(rune('a'+(g.fresh/26)%26)))
+	add := func(p string) { g.steps = append(g.steps, Step{K: KAdd, P: P(g.spell(p, false))}) }
+	em := func(s ...Step) { g.steps = append(g.steps, s...) }
+	burst := g.pct("macro-burst", 35)
+	if !burst {
+		add(f)
+	}
+	g.nops += 4
+	switch rapid.IntRange(0, 6).Draw(t, "macro-kind") {
+	case 0: // new inode under a listed path, old inode alive through a hard link
+		add(f)
+		em(Step{K: KLink, P: P(f), Q: keep}, Step{K: KUnlink, P: P(f)}, Step{K: KCreate, P: P(f)})
+		add(f)
+		em(Step{K: KWrite, P: P(f), N: 1}, Step{K: KWrite, P: keep, N: 1})
+	case 1: // ... through an open descriptor
+		slot := rapid.IntRange(0, 2).Draw(t, "macro-slot")
+		if g.held[slot] {
+			em(Step{K: KRelease, N: slot})
+		}
+		add(f)
+		em(Step{K: KHold, P: P(f), N: slot}, Step{K: KUnlink, P: P(f)}, Step{K: KCreate, P: P(f)})
+		add(f)
+		em(Step{K: KWrite, P: P(f), N: 1}, Step{K: KRelease, N: slot})
+		delete(g.held, slot)
+	case 2: // listed path comes to name a file that is watched under another name
+		if len(files) < 2 {
+			g.fsStep()
+			g.sync()
+			return
+		}
+		other := g.pick("macro-other", files)
+		if other == f {
+			g.fsStep()
+			g.sync()
+			return
+		}
+		add(f)
+		add(other)
+		em(Step{K: KLink, P: P(f), Q: keep}, Step{K: KUnlink, P: P(f)}, Step{K: KLink, P: P(other), Q: P(f)})
+		add(f)
+		em(Step{K: KWrite, P: P(other), N: 1})
+		g.steps = append(g.steps, Step{K: KRemove, P: P(g.spell(f, true))}, Step{K: KList})
+	case 3: // renamed away and back, then re-added
+		add(f)
+		em(Step{K: KRename, P: P(f), Q: keep}, Step{K: KWrite, P: keep, N: 1}, Step{K: KRename, P: keep, Q: P(f)})
+		add(f)
+		em(Step{K: KWrite, P: P(f), N: 1})
+	case 4: // overwritten by a rename from an unwatched place
+		add(f)
+		em(Step{K: KCreate, P: keep}, Step{K: KRename, P: keep, Q: P(f)}, Step{K: KWrite, P: P(f), N: 1})
+		add(f)
+		em(Step{K: KChmod, P: P(f), N: 0o600})
+	case 5: // deleted, recreated, re-added; nothing keeps the old inode
+		add(f)
+		em(Step{K: KUnlink, P: P(f)}, Step{K: KCreate, P: P(f)})
+		add(f)
+		em(Step{K: KWrite, P: P(f), N: 1})
+	default: // unlinked while open; the parent is added afterwards
+		slot := rapid.IntRange(0, 2).Draw(t, "macro-slot2")
+		if g.held[slot] {
+			em(Step{K: KRelease, N: slot})
+		}
+		add(f)
+		em(Step{K: KHold, P: P(f), N: slot}, Step{K: KUnlink, P: P(f)})
+		add(filepath.Dir(f))
+		em(Step{K: KRelease, N: slot}, Step{K: KCreate, P: P(f)})
+		delete(g.held, slot)
+	}
+	g.added = append(g.added, f)
+	g.sync()
 }
 
 func (g *Gen) sync() {
